@@ -147,6 +147,9 @@ func runCLHTScenario(sc clhtScenario) clhtResult {
 						if old != nil {
 							saw = old.v
 						}
+						// the update function is user code running under the bucket lock: a gate (a resize may try to copy
+						// this bucket right now)
+						verifhook.Point("cb.compute")
 						switch act {
 						case "write":
 							return &vNode{k, v}
